@@ -946,6 +946,7 @@ class Run:
             if not self.in_session: self.enter()
             snap = self.snapshot()
             snap['expect_out'] = 'ok' if err is None else 'dbError'
+            snap['err_name'] = err
             snap['stmts'] = stm
             snap['committed'] = self.w.read_db()
             self.model_checks.append(snap)
@@ -1303,6 +1304,10 @@ def compare_model(run, ctx, out):
         if 'expect_out' in snap:
             mout = st['out']
             mout = 'dbError' if isinstance(mout, str) and mout.startswith('dbError') else mout
+            if mout == 'ok' and snap['expect_out'] == 'dbError' and snap.get('err_name') in ('TransactionIntegrityError', 'IntegrityError') \
+                    and any(e['ckey'] or any(sc['unique'] for sc in e['scalars']) for e in run.schema['ents']):
+                # a unique / composite key clashed with a row that is not loaded: loud, and outside the model (keys are C14)
+                ctx.count('tie:history-cut:unique-key-clash-at-flush'); return None
             if mout != snap['expect_out']: return diff('outcome of %s differs' % mo['k'], st['out'], snap['expect_out'])
             ctx.count('tie:outcome:%s:%s' % (mo['k'], mout))
         mc = {_jkey(k): {'status': s, 'vals': v, 'wbits': wb} for k, s, v, wb in st['cache']}
